@@ -26,6 +26,7 @@ type childIn struct {
 	Instants int   `json:"instants"`
 	Mix      bool  `json:"mix"`
 	Ingest   bool  `json:"ingest"`
+	Storm    bool  `json:"storm"`
 }
 
 type childFail struct {
@@ -135,6 +136,11 @@ func raceChild(args []string) {
 	}
 	if in.Ingest {
 		out = append(out, ingestAPI(in.Seed)...)
+	}
+	if in.Storm {
+		if err := stormOnly(in.Seed); err != nil {
+			out = append(out, childFail{Key: "setup", What: err.Error()})
+		}
 	}
 	data, _ := json.Marshal(out)
 	fmt.Println("C07RESULT " + string(data))
@@ -348,6 +354,7 @@ func racePart(c *lib.Ctx, rb *raceBuild) int {
 	}
 	pairs := runChild(c, rb.exe, true, childIn{Seed: c.Seed, Instants: inst, Mix: true}, "race-mix")
 	pairs = append(pairs, runChild(c, rb.exe, true, childIn{Seed: c.Seed, Ingest: true}, "race-ingest")...)
+	pairs = append(pairs, runChild(c, rb.exe, true, childIn{Seed: c.Seed, Storm: true}, "race-storm")...)
 	c.Count(fmt.Sprintf("race-detector:ran(build %.0fs)", rb.secs))
 	var obs []string
 	for i, p := range pairs {
